@@ -8,11 +8,19 @@ at generated instants incl. the same instant; plus a file whose preamble calls t
 instant (no loop pass between the fires: every dispatch happens before the first new task has had a step), and a
 program may move to the other global context with pyscript.set_global_ctx() in mid-run: every later
 unique / name2id / cancel-by-name of that task then belongs to the context it is in NOW.
+A program may wrap its steps in try/finally with a finally block that itself claims names and sleeps (a task that
+SURVIVES its first cancellation and has to be cancelled again when a name it holds is claimed once more), and a
+done callback may claim a name as well.  The two global contexts are either two files (file.ca / file.cb) or NESTED
+script contexts (scripts.ca and scripts.ca.cb, both loaded), and unique names may contain dots ('cb.n0') or be the
+empty string (docs: "the name can be any string").
 
 Oracle: a reference map name -> owner per context, stepped through the markers the scripts emit
 (they are totally ordered; a marker and the call that follows it are atomic on the loop), with the
 liveness of every task observed at each marker and at every quiescent point of the simulator.  The map is keyed
-by the caller's CURRENT global context.  A body of a @task_unique(kill_me=True) function that starts while another
+by the caller's CURRENT global context (the pair (context, name): never a string built from the two).  A request to
+die is satisfied when the CancelledError is DELIVERED (the task moves on to its finally block / done callback, seen by
+the marker there, or ends); a task that survived a delivery is a live owner like any other and every later claim of
+one of its names is a new request.  A body of a @task_unique(kill_me=True) function that starts while another
 live task (that nobody asked to die) owns the name is a violation whatever the number of occurrences, and a task
 that ends cancelled although no claim / task.cancel / kill_me rule of its context asked for it is one too (names
 of different contexts never interact, a rightful owner is never the one that is killed).
@@ -31,7 +39,10 @@ LEVEL = "exploration"
 RULE = (
     "seeded generation of <=5 task programs over <=3 names x 2 contexts with start instants on a 0.25 s grid "
     "(same-instant starts included; trigger functions also get bursts of 2-3 occurrences fired back to back in one "
-    "instant; ~1/4 of the programs switch to the other global context with pyscript.set_global_ctx before a claim); "
+    "instant; ~1/4 of the programs switch to the other global context with pyscript.set_global_ctx before a claim; "
+    "~1/3 of the programs have a finally block that claims a name and sleeps, ~1/3 of the done callbacks claim a name; "
+    "~1/3 of the scenarios use nested script contexts scripts.ca / scripts.ca.cb, ~1/2 use dotted unique names, "
+    "~1/8 the empty name); "
     "thorough tier additionally ENUMERATES all 3-task configurations from a "
     "family of 6 programs x 3 start offsets x 2 subsystems (11664 cases); distinct = scenario digest; "
     "non-trivial = some name was contested (a claim found a live owner)"
@@ -46,6 +57,11 @@ ASSUMPTIONS = [
     "when a program switches, a switch that raises (context being reloaded) just ends the task",
     "nothing in the workload except task.unique / task.cancel / kill_me cancels a program task, so a program task that "
     "ends cancelled without having been asked to die (or being don't-care) is a violation",
+    "a task is cancelled only at a step that waits (task.sleep, or task.unique(kill_me=True) waiting to be killed): a "
+    "finally block / done callback entered from such a step was entered by the delivery of a CancelledError, entered "
+    "after the last step or from a raising step it was not; requests made before one delivery count as one request",
+    "a done callback claims names in the context of the file that defines it; programs that switch the global context "
+    "do not register claiming callbacks (which context a callback of a switched task runs in is not documented)",
 ]
 TIERS = {
     "quick": {"runs": 900, "chunk": 30},
@@ -56,7 +72,11 @@ REACH_PROBES = ["contested", "same_instant_claims", "kill_me_vs_live_owner", "ki
                 "cancel_by_name", "callback_sleeping_during_kill", "two_contexts_same_name", "decorator_form",
                 "preamble_unique", "multi_name_owner", "trigger_burst", "kill_me_trigger_burst",
                 "decorator_kill_me_vs_live_owner",
-                "ctx_switch", "claim_after_ctx_switch", "contested_after_ctx_switch", "same_name_owned_in_both_contexts"]
+                "ctx_switch", "claim_after_ctx_switch", "contested_after_ctx_switch", "same_name_owned_in_both_contexts",
+                "finally_block", "cancelled_into_finally", "claim_in_finally", "contested_claim_in_finally",
+                "claim_in_done_callback", "cancelled_into_done_callback", "second_cancel_request",
+                "second_cancel_request_in_finally", "nested_contexts", "dotted_name_claim", "qualified_name_overlap",
+                "empty_name_claim", "empty_name_decorator"]
 # probes that can only fire while the defect they observe is present (C13-K1, repaired): not "reach"
 SYMPTOM_PROBES = ["callback_sleeping_during_kill"]
 SHRINK_LISTS = [["ops"], ["spec", "progs"], ["spec", "progs", "*", "steps"]]
@@ -64,6 +84,26 @@ SHRINK_LISTS = [["ops"], ["spec", "progs"], ["spec", "progs", "*", "steps"]]
 NAMES = ["n0", "n1", "n2"]
 CTXS = ["ca", "cb"]
 GRID = 0.25
+# spec["layout"]: where the two global contexts live.  "flat" (default, also when absent): pyscript/ca.py and
+# pyscript/cb.py = file.ca / file.cb;  "nested": pyscript/scripts/ca.py and pyscript/scripts/ca/cb.py =
+# scripts.ca / scripts.ca.cb (context names nest; both are loaded)
+LAYOUTS = {
+    "flat": {"ca": ("file.ca", "pyscript/ca.py"), "cb": ("file.cb", "pyscript/cb.py")},
+    "nested": {"ca": ("scripts.ca", "pyscript/scripts/ca.py"), "cb": ("scripts.ca.cb", "pyscript/scripts/ca/cb.py")},
+}
+
+
+def ctx_global(spec: dict, ctx: str) -> str:
+    return LAYOUTS[spec.get("layout", "flat")][ctx][0]
+
+
+def ctx_path(spec: dict, ctx: str) -> str:
+    return LAYOUTS[spec.get("layout", "flat")][ctx][1]
+
+
+def qualified(spec: dict, ctx: str, name: str) -> str:
+    """Dotted spelling of (context, name) - used for probes and for labelling violations only, never for a verdict."""
+    return f"{ctx_global(spec, ctx)}.{name}"
 
 # family used by the bounded-exhaustive part (thorough tier)
 FAMILY = [
@@ -77,26 +117,60 @@ FAMILY = [
 
 
 # ------------------------------------------------------------------ generation
-def _gen_steps(rng: random.Random, depth: int = 0) -> list:
+def _name(rng: random.Random, style: dict | None, ctx: str | None = None) -> str:
+    """A unique name: n0..n2, or (style) a dotted name 'cb.n0' / 'ca.n1' / the empty string."""
+    if style:
+        roll = rng.random()
+        if roll < style.get("empty", 0.0):
+            return ""
+        # in the outer context of a nested pair the dotted names are the ones spelled like the inner context
+        dotted = style.get("dotted", 0.0) * (1.6 if ctx == "ca" else 0.5 if ctx == "cb" else 1.0)
+        if roll < style.get("empty", 0.0) + dotted:
+            return f"{rng.choice(['cb', 'cb', 'cb', 'ca'])}.{rng.choice(NAMES)}"
+    return rng.choice(NAMES)
+
+
+def _gen_steps(rng: random.Random, depth: int = 0, style: dict | None = None, ctx: str | None = None) -> list:
     steps = []
     for _ in range(rng.randint(1, 6)):
         roll = rng.random()
         if roll < 0.4:
-            steps.append(["unique", rng.choice(NAMES), rng.random() < 0.3])
+            steps.append(["unique", _name(rng, style, ctx), rng.random() < 0.3])
         elif roll < 0.7:
             steps.append(["sleep", rng.choice([0.1, 0.3, 0.6, 1.0, 2.0])])
         elif roll < 0.8:
             steps.append(["n2i"])
         elif roll < 0.86:
-            steps.append(["cancel", rng.choice(NAMES)])
+            steps.append(["cancel", _name(rng, style, ctx)])
         elif roll < 0.92:
-            steps.append(["add_cb", rng.choice([0, 0, 0.4, 1.2])])
+            step = ["add_cb", rng.choice([0, 0, 0.4, 1.2])]
+            if style is not None and rng.random() < 0.35:
+                # the done callback claims a name itself (and is then a live owner while it sleeps)
+                step += [_name(rng, style, ctx), rng.random() < 0.2]
+                if step[1] == 0:
+                    step[1] = rng.choice([0.4, 1.2])
+            steps.append(step)
         elif roll < 0.96:
             steps.append(["raise"])
             break
     if not any(s[0] == "sleep" for s in steps):
         steps.append(["sleep", rng.choice([0.3, 1.0])])
     return steps
+
+
+def _gen_fin(rng: random.Random, style: dict | None, ctx: str) -> list:
+    """Steps of a finally block: it claims a name and then takes a while (so the task outlives its cancellation)."""
+    fin = []
+    if rng.random() < 0.2:
+        fin.append(["sleep", rng.choice([0.1, 0.3])])
+    fin.append(["unique", _name(rng, style, ctx), rng.random() < 0.2])
+    if rng.random() < 0.3:
+        fin.append(["n2i"])
+    fin.append(["sleep", rng.choice([0.3, 0.6, 1.0, 2.0])])
+    if rng.random() < 0.3:
+        fin.append(["unique", _name(rng, style, ctx), rng.random() < 0.3])
+        fin.append(["sleep", rng.choice([0.3, 0.6])])
+    return fin
 
 
 def _add_ctx_switch(rng: random.Random, prog: dict) -> None:
@@ -115,6 +189,9 @@ def _add_ctx_switch(rng: random.Random, prog: dict) -> None:
         pos = rng.choice(claims)
         steps.insert(pos, ["setctx", other])
         pos += 1
+    for step in steps:
+        if step[0] == "add_cb":
+            del step[2:]  # see ASSUMPTIONS: no claiming callbacks for a task that switches
     if rng.random() < 0.5:
         steps.insert(pos + 1, ["n2i"])
     if rng.random() < 0.3:  # ... and back again later on
@@ -126,14 +203,23 @@ def _add_ctx_switch(rng: random.Random, prog: dict) -> None:
 def gen(rng: random.Random, tier: str) -> dict:
     cfg = gen_cfg(rng)
     cfg["drift"] = 0.0
+    layout = "nested" if rng.random() < 0.35 else "flat"
+    style = {"dotted": 0.0, "empty": 0.0}
+    if rng.random() < (0.85 if layout == "nested" else 0.3):
+        style["dotted"] = rng.choice([0.25, 0.4])
+    if rng.random() < 0.12:
+        style["empty"] = 0.2
     progs = []
     for tid in range(rng.randint(2, 5)):
         entry = rng.choice(["service", "service", "service", "trigger", "trigger", "create"])
-        prog = {"tid": tid, "ctx": rng.choice(CTXS), "entry": entry, "steps": _gen_steps(rng)}
+        ctx = rng.choice(CTXS)
+        prog = {"tid": tid, "ctx": ctx, "entry": entry, "steps": _gen_steps(rng, 0, style, ctx)}
         if entry == "trigger":
-            prog["dec"] = [rng.choice(NAMES), rng.random() < 0.5]
+            prog["dec"] = [_name(rng, style, ctx), rng.random() < 0.5]
         if rng.random() < 0.25:
             _add_ctx_switch(rng, prog)
+        if rng.random() < 0.35:
+            prog["fin"] = _gen_fin(rng, style, ctx)
         progs.append(prog)
     ops = []
     k = 0
@@ -147,12 +233,12 @@ def gen(rng: random.Random, tier: str) -> dict:
         if rng.random() < 0.3:  # a program may be started twice (two tasks of one function)
             ops.append({"k": k + rng.choice([0, 1, 3]), "kind": "start", "tid": prog["tid"]})
     if rng.random() < 0.2:
-        ops.append({"k": rng.randint(1, 6), "kind": "load_preamble", "ctx_name": rng.choice(NAMES),
+        ops.append({"k": rng.randint(1, 6), "kind": "load_preamble", "ctx_name": _name(rng, style),
                     "kill_me": rng.random() < 0.5})
     if rng.random() < 0.15:
         ops.append({"k": rng.randint(1, 6), "kind": "stall", "s": rng.choice([0.01, 0.2])})
     ops.sort(key=lambda op: op["k"])
-    return {"cfg": cfg, "spec": {"progs": progs}, "ops": ops}
+    return {"cfg": cfg, "spec": {"progs": progs, "layout": layout}, "ops": ops}
 
 
 def gen_indexed(i: int, rng: random.Random, tier: str) -> dict:
@@ -179,7 +265,32 @@ def gen_indexed(i: int, rng: random.Random, tier: str) -> dict:
 
 
 # ------------------------------------------------------------------ rendering
-def _prog_src(prog: dict) -> list[str]:
+def _step_src(tid: int, step: list, idx: int, spec: dict, fin: bool) -> list[str]:
+    pre, post, n2i = ("fpre", "fpost", "fn2i") if fin else ("pre", "post", "n2i")
+    lines = [f"sim.mark('p', {tid}, {pre!r}, {idx})"]
+    if step[0] == "unique":
+        lines.append(f"task.unique({step[1]!r}, kill_me={step[2]})")
+    elif step[0] == "sleep":
+        lines.append(f"task.sleep({step[1]})")
+    elif step[0] == "n2i":
+        lines.append(f"sim.mark('p', {tid}, {n2i!r}, {idx}, m=task.name2id())")
+    elif step[0] == "cancel":
+        lines.append(f"task.cancel(task.name2id({step[1]!r}))")
+    elif step[0] == "add_cb":
+        if len(step) > 2:
+            lines.append(f"task.add_done_callback(task.current_task(), cb, {tid}, {step[1]}, {step[2]!r}, {step[3]})")
+        else:
+            lines.append(f"task.add_done_callback(task.current_task(), cb, {tid}, {step[1]})")
+    elif step[0] == "setctx":
+        lines.append(f"pyscript.set_global_ctx({ctx_global(spec, step[1])!r})")
+    elif step[0] == "raise":
+        lines.append("raise ValueError('boom')")
+    lines.append(f"sim.mark('p', {tid}, {post!r}, {idx})")
+    return lines
+
+
+def _prog_src(prog: dict, spec: dict | None = None) -> list[str]:
+    spec = spec or {}
     tid = prog["tid"]
     lines = []
     if prog["entry"] == "trigger":
@@ -191,46 +302,51 @@ def _prog_src(prog: dict) -> list[str]:
         lines.append(f"def p{tid}():")
     else:
         lines.append(f"def p{tid}():")
-    lines.append(f"    sim.mark('p', {tid}, 'start')")
+    if prog["entry"] == "trigger":
+        # (the decorator's claim is visible through the documented API when the body starts)
+        lines.append(f"    sim.mark('p', {tid}, 'start', m=task.name2id())")
+    else:
+        lines.append(f"    sim.mark('p', {tid}, 'start')")
+    fin = prog.get("fin")
+    ind = "        " if fin else "    "
+    if fin:
+        lines.append("    try:")
     for idx, step in enumerate(prog["steps"]):
-        lines.append(f"    sim.mark('p', {tid}, 'pre', {idx})")
-        if step[0] == "unique":
-            lines.append(f"    task.unique({step[1]!r}, kill_me={step[2]})")
-        elif step[0] == "sleep":
-            lines.append(f"    task.sleep({step[1]})")
-        elif step[0] == "n2i":
-            lines.append(f"    sim.mark('p', {tid}, 'n2i', {idx}, m=task.name2id())")
-        elif step[0] == "cancel":
-            lines.append(f"    task.cancel(task.name2id({step[1]!r}))")
-        elif step[0] == "add_cb":
-            lines.append(f"    task.add_done_callback(task.current_task(), cb, {tid}, {step[1]})")
-        elif step[0] == "setctx":
-            lines.append(f"    pyscript.set_global_ctx('file.{step[1]}')")
-        elif step[0] == "raise":
-            lines.append("    raise ValueError('boom')")
-        lines.append(f"    sim.mark('p', {tid}, 'post', {idx})")
-    lines.append(f"    sim.mark('p', {tid}, 'end')")
+        lines += [ind + ln for ln in _step_src(tid, step, idx, spec, False)]
+    lines.append(f"{ind}sim.mark('p', {tid}, 'end')")
+    if fin:
+        # the finally block goes on after the task was cancelled (or the body ended / raised)
+        lines.append("    finally:")
+        lines.append(f"        sim.mark('p', {tid}, 'fin')")
+        for idx, step in enumerate(fin):
+            lines += [ind + ln for ln in _step_src(tid, step, idx, spec, True)]
+        lines.append(f"        sim.mark('p', {tid}, 'fend')")
     lines.append("")
     return lines
 
 
 def render(scn: dict) -> dict:
     files = {}
-    switched_to = {s[1] for p in scn["spec"]["progs"] for s in p["steps"] if s[0] == "setctx"}
+    spec = scn["spec"]
+    switched_to = {s[1] for p in spec["progs"] for s in p["steps"] if s[0] == "setctx"}
     for ctx in CTXS:
-        progs = [p for p in scn["spec"]["progs"] if p["ctx"] == ctx]
+        progs = [p for p in spec["progs"] if p["ctx"] == ctx]
         if not progs and ctx not in switched_to:
             continue
         lines = [
-            "def cb(tid, d):",
+            "def cb(tid, d, name=None, kill_me=False):",
             "    sim.mark('cb', tid, 'start')",
+            "    if name is not None:",
+            "        sim.mark('cb', tid, 'pre', name, kill_me)",
+            "        task.unique(name, kill_me=kill_me)",
+            "        sim.mark('cb', tid, 'post', name, kill_me)",
             "    if d:",
             "        task.sleep(d)",
             "    sim.mark('cb', tid, 'end')",
             "",
         ]
         for prog in progs:
-            lines += _prog_src(prog)
+            lines += _prog_src(prog, spec)
         creates = [p for p in progs if p["entry"] == "create"]
         if creates:
             lines.append("@service")
@@ -239,7 +355,7 @@ def render(scn: dict) -> dict:
                 lines.append(f"    if tid == {prog['tid']}:")
                 lines.append(f"        task.create(p{prog['tid']})")
             lines.append("")
-        files[f"pyscript/{ctx}.py"] = "\n".join(lines) + "\n"
+        files[ctx_path(spec, ctx)] = "\n".join(lines) + "\n"
     return files
 
 
@@ -268,6 +384,24 @@ def simplify(scn: dict):
             cand = copy.deepcopy(scn)
             cand["spec"]["progs"][pi]["steps"] = [s for s in prog["steps"] if s[0] != "setctx"]
             yield cand
+        if prog.get("fin"):
+            cand = copy.deepcopy(scn)
+            del cand["spec"]["progs"][pi]["fin"]
+            yield cand
+            if len(prog["fin"]) > 1:
+                for fi in range(len(prog["fin"])):
+                    cand = copy.deepcopy(scn)
+                    del cand["spec"]["progs"][pi]["fin"][fi]
+                    yield cand
+        for si, step in enumerate(prog["steps"]):
+            if step[0] == "add_cb" and len(step) > 2:
+                cand = copy.deepcopy(scn)
+                del cand["spec"]["progs"][pi]["steps"][si][2:]
+                yield cand
+    if scn["spec"].get("layout", "flat") != "flat":
+        cand = copy.deepcopy(scn)
+        cand["spec"]["layout"] = "flat"
+        yield cand
     # a burst of one trigger -> a single occurrence
     seen = set()
     for oi, op in enumerate(scn["ops"]):
@@ -298,6 +432,7 @@ class Checker:
         self.w = w
         self.scn = scn
         self.sub = "legacy" if w.cfg["legacy"] else "new"
+        self.spec = scn["spec"]
         self.progs = {p["tid"]: p for p in scn["spec"]["progs"]}
         self.violations: list = []
         self.inst: dict = {}            # task label -> instance record
@@ -315,6 +450,9 @@ class Checker:
         self.maybe_die: set = set()     # labels whose cancellation is don't-care
         self.dec_reported: set = set()  # tids whose decorator-form kill_me violation was seen at the body start
         self.reload_vts: list = []
+        self.cancel_log: list = []      # task.cancel(task.name2id(name)) while another pair with the same spelling was owned
+        self.overlap_seen = False       # two live owners of (context, name) pairs with the same dotted spelling existed
+        self.dec_missing = False        # a @task_unique claim was not reported by task.name2id()
 
     # -- helpers
     def alive(self, label) -> bool:
@@ -322,14 +460,70 @@ class Checker:
         return rec is not None and not rec["task"].done()
 
     def viol(self, cls: str, sig: dict, detail: str) -> None:
+        # consequences of an earlier divergence carry its mark, so that a finding can be recorded per cause
+        if self.dec_missing and cls != "C13.decorator_claim_missing":
+            sig = {**sig, "after_decorator_claim_missing": True}
         self.violations.append({"class": cls, "sig": {"subsystem": self.sub, **sig}, "detail": detail,
-                                "t": self.w.vts()})
+                                "t": self.w.vts(), "_ov": self.overlap_seen})
+
+    @staticmethod
+    def _spelling_primary(viol: dict) -> bool:
+        sig = viol["sig"]
+        return bool(sig.get("other_context_same_spelling")) or sig.get("pattern") in (
+            "other_context_same_spelling", "other_context_name")
+
+    def finish_marks(self) -> None:
+        """A run in which the dotted spelling of (context, name) pairs demonstrably mattered: what else it reports
+        once such pairs were in play is marked as a possible consequence of that (a mark in the signature only)."""
+        prim = [v for v in self.violations if self._spelling_primary(v)]
+        first = min((v["t"] for v in prim), default=None)
+        for viol in self.violations:
+            seen = viol.pop("_ov", False)
+            if prim and not self._spelling_primary(viol) and (seen or viol["t"] >= first):
+                viol["sig"]["after_same_spelling_overlap"] = True
 
     def live_owner(self, ctx, name):
         label = self.owner.get((ctx, name))
         if label is not None and self.alive(label):
             return label
         return None
+
+    def doom(self, label, why: str, vt=None) -> None:
+        """Task `label` has to be cancelled (one request; requests made before its delivery are one request)."""
+        self.doomed_ever.add(label)
+        rec = self.inst.get(label)
+        if label not in self.must_die and rec is not None and rec.get("cancels"):
+            # a task that already survived a cancellation (it is in its finally block / done callback) must go again
+            self.w.probe("second_cancel_request")
+            if rec.get("zone") == "fin":
+                self.w.probe("second_cancel_request_in_finally")
+        self.must_die.setdefault(label, {"why": why, "vt": self.w.loop.vt if vt is None else vt,
+                                         "cb_block": set(self.cb_running)})
+
+    def overlap(self, ctx, name, label=None) -> list:
+        """Live owners of OTHER (context, name) pairs whose dotted spelling is the same (labelling only)."""
+        mine = qualified(self.spec, ctx, name)
+        return [lab for (c, n), lab in self.owner.items()
+                if (c, n) != (ctx, name) and qualified(self.spec, c, n) == mine and self.alive(lab) and lab != label]
+
+    def transition(self, label, zone: str) -> None:
+        """The task entered its finally block / its done callback: was that the delivery of a CancelledError?"""
+        rec = self.inst.get(label)
+        if rec is None:
+            return
+        step = rec.get("cur_step")
+        if step is None:
+            cause = "normal"   # the zone before ran to its end
+        elif step[0] == "sleep" or (step[0] == "unique" and step[2]):
+            cause = "cancel"   # only a CancelledError ends a step that waits
+        else:
+            cause = "exc"      # raise / NameError of task.cancel / failed context switch
+        rec["zone"] = zone
+        rec["cur_step"] = None
+        if cause == "cancel":
+            rec["cancels"] = rec.get("cancels", 0) + 1
+            self.must_die.pop(label, None)  # delivered; it is a live owner again until somebody claims one of its names
+            self.w.probe("cancelled_into_finally" if zone == "fin" else "cancelled_into_done_callback")
 
     def release_dead(self) -> None:
         for key, label in list(self.owner.items()):
@@ -349,19 +543,32 @@ class Checker:
         switched = bool(self.inst.get(label, {}).get("switched"))
         if switched:
             self.w.probe("claim_after_ctx_switch")
+        if "." in name:
+            self.w.probe("dotted_name_claim")
+        if name == "":
+            self.w.probe("empty_name_claim")
+        if self.overlap(ctx, name, label):
+            self.w.probe("qualified_name_overlap")
+            self.overlap_seen = True
+        zone = self.inst.get(label, {}).get("zone")
+        if zone == "fin":
+            self.w.probe("claim_in_finally")
+        elif zone == "cb":
+            self.w.probe("claim_in_done_callback")
         if prev is not None and prev != label:
             self.contested = True
             self.w.probe("contested")
             if switched:
                 self.w.probe("contested_after_ctx_switch")
+            if zone == "fin":
+                self.w.probe("contested_claim_in_finally")
             if kill_me:
                 self.w.probe("kill_me_vs_live_owner")
                 if prev in self.must_die or prev in self.maybe_die:
                     self.maybe_die.add(label)
                     return None  # rival already asked to die: don't-care
                 return False
-            self.must_die.setdefault(prev, {"why": f"{name} claimed by task {label} ({where})", "vt": self.w.loop.vt,
-                                            "cb_block": set(self.cb_running)})
+            self.doom(prev, f"{name} claimed by task {label} ({where})")
         elif kill_me:
             self.w.probe("kill_me_free_name")
         self.owner[(ctx, name)] = label
@@ -375,6 +582,9 @@ class Checker:
 
     def claim_decorator(self, ctx, name, label, kill_me, tid) -> None:
         """The body of a @task_unique function starts: the rule was applied just before, in the same task step."""
+        if self.overlap(ctx, name, label):
+            self.w.probe("qualified_name_overlap")
+            self.overlap_seen = True
         if kill_me:
             self.release_dead()
             prev = self.live_owner(ctx, name)
@@ -408,6 +618,27 @@ class Checker:
         if args[0] == "cb":
             if args[2] == "start":
                 self.cb_running.add(label)
+                self.transition(label, "cb")
+            elif args[2] in ("pre", "post"):
+                # the done callback claims a name: cb(tid, d, name, kill_me) - the step that registered it says which
+                inst = self.inst.get(label)
+                prog = self.progs.get(inst["tid"]) if inst else None
+                if prog is None:
+                    return
+                step = ["unique", args[3], bool(args[4])]  # (the callback reports its own arguments)
+                if args[2] == "pre":
+                    inst["cur_step"] = step
+                    res = self.claim(prog["ctx"], step[1], label, step[2], f"done callback of p{inst['tid']}")
+                    self.pending_post[label] = {"idx": "cb", "expect": res, "step": step, "vt": rec["vt"]}
+                    if res is False:
+                        self.doom(label, f"kill_me=True while {step[1]} is owned by a live task", rec["vt"])
+                else:
+                    inst["cur_step"] = None
+                    pend = self.pending_post.pop(label, None)
+                    if pend and pend["idx"] == "cb" and pend["expect"] is False:
+                        self.viol("C13.kill_me_survived", {"form": "call"},
+                                  f"done callback of p{inst['tid']} task {label}: task.unique({step[1]!r}, kill_me=True) "
+                                  f"returned although live task {self.live_owner(prog['ctx'], step[1])} owns the name")
             else:
                 self.cb_running.discard(label)
             return
@@ -420,8 +651,7 @@ class Checker:
             if victim is not None:
                 self.contested = True
                 if not pre["kill_me"]:
-                    self.must_die.setdefault(victim, {"why": f"{pre['name']} claimed by the file preamble",
-                                                      "vt": rec["vt"], "cb_block": set(self.cb_running)})
+                    self.doom(victim, f"{pre['name']} claimed by the file preamble", rec["vt"])
                 else:
                     # kill_me=True from a caller pyscript did not start does nothing: the owner lives on
                     self.protected[victim] = {"vt": rec["vt"], "name": pre["name"]}
@@ -434,56 +664,88 @@ class Checker:
             return
         if what == "start":
             self.inst[label] = {"tid": tid, "task": rec["task_obj"], "ctx": prog["ctx"], "cur": prog["ctx"],
-                                "start_vt": rec["vt"], "switched": False}
+                                "start_vt": rec["vt"], "switched": False, "zone": "main", "cur_step": None,
+                                "cancels": 0}
+            if prog.get("fin"):
+                self.w.probe("finally_block")
             if prog["entry"] == "trigger":
                 self.w.probe("decorator_form")
                 name, kill_me = prog["dec"]
+                if name == "":
+                    self.w.probe("empty_name_decorator")
                 self.claim_decorator(prog["ctx"], name, label, kill_me, tid)
+                got = rec["raw_kw"].get("m")
+                if got is not None and self.w.label_of(got.get(name)) != label:
+                    # "@task_unique applies the same rule before the function body starts ... the caller becomes the
+                    # name's owner as reported by task.name2id"
+                    self.dec_missing = True
+                    self.viol("C13.decorator_claim_missing", {"empty_name": name == ""},
+                              f"p{tid} task {label}: the body of @task_unique({name!r}, kill_me={kill_me}) started but "
+                              f"task.name2id() does not report the task as the owner of {name!r}: "
+                              f"{ {n: self.w.label_of(t) for n, t in got.items()} }")
             return
         if label not in self.inst:
             return
-        if what == "pre":
+        if what == "fin":
+            self.transition(label, "fin")
+            return
+        fin = what in ("fpre", "fpost", "fn2i")
+        steps = prog.get("fin", []) if fin else prog["steps"]
+        if what in ("pre", "fpre"):
             idx = args[3]
-            step = prog["steps"][idx]
+            step = steps[idx]
+            self.inst[label]["cur_step"] = step
             # a marker of another task between my pre and post means the step yielded: fine for sleep only
             ctx = self.cur_ctx(label, prog)
             if step[0] == "unique":
-                res = self.claim(ctx, step[1], label, step[2], f"step {idx} of p{tid} in {ctx}")
-                self.pending_post[label] = {"idx": idx, "expect": res, "step": step, "vt": rec["vt"]}
+                res = self.claim(ctx, step[1], label, step[2],
+                                 f"step {idx} of {'the finally block of ' if fin else ''}p{tid} in {ctx}")
+                self.pending_post[label] = {"idx": (what, idx), "expect": res, "step": step, "vt": rec["vt"],
+                                            "overlap": bool(self.overlap(ctx, step[1], label))}
                 if res is False:
-                    self.must_die.setdefault(label, {"why": f"kill_me=True while {step[1]} is owned by a live task",
-                                                     "vt": rec["vt"], "cb_block": set(self.cb_running)})
+                    self.doom(label, f"kill_me=True while {step[1]} is owned by a live task", rec["vt"])
             elif step[0] == "cancel":
                 self.release_dead()
                 victim = self.live_owner(ctx, step[1])
                 self.w.probe("cancel_by_name")
+                spelled = self.overlap(ctx, step[1], None)
+                if spelled:
+                    self.w.probe("qualified_name_overlap")
+                    self.overlap_seen = True
+                    self.cancel_log.append((rec["vt"], ctx, step[1], label))
                 if victim is None:
-                    self.pending_post[label] = {"idx": idx, "expect": "nameerror", "step": step, "vt": rec["vt"]}
+                    self.pending_post[label] = {"idx": (what, idx), "expect": "nameerror", "step": step, "vt": rec["vt"],
+                                                "overlap": bool(spelled)}
                 else:
-                    self.must_die.setdefault(victim, {"why": f"task.cancel by p{tid}", "vt": rec["vt"],
-                                                      "cb_block": set(self.cb_running)})
-                    self.pending_post[label] = {"idx": idx, "expect": True if victim != label else False,
+                    self.doom(victim, f"task.cancel by p{tid}", rec["vt"])
+                    self.pending_post[label] = {"idx": (what, idx), "expect": True if victim != label else False,
                                                 "step": step, "vt": rec["vt"]}
             elif step[0] == "raise":
-                self.pending_post[label] = {"idx": idx, "expect": "raise", "step": step, "vt": rec["vt"]}
-        elif what == "post":
+                self.pending_post[label] = {"idx": (what, idx), "expect": "raise", "step": step, "vt": rec["vt"]}
+        elif what in ("post", "fpost"):
             idx = args[3]
+            self.inst[label]["cur_step"] = None
             pend = self.pending_post.pop(label, None)
-            if prog["steps"][idx][0] == "setctx":
+            if steps[idx][0] == "setctx":
                 # the switch returned: from here on the task lives in the other context
-                self.inst[label]["cur"] = prog["steps"][idx][1]
+                self.inst[label]["cur"] = steps[idx][1]
                 self.inst[label]["switched"] = True
                 self.w.probe("ctx_switch")
-            if pend and pend["idx"] == idx:
+            if pend and pend["idx"] == ("fpre" if fin else "pre", idx):
                 if pend["expect"] is False and pend["step"][0] == "unique":
                     owner = self.live_owner(self.cur_ctx(label, prog), pend["step"][1])
                     self.viol("C13.kill_me_survived", {"form": "call"},
                               f"p{tid} task {label}: task.unique({pend['step'][1]!r}, kill_me=True) returned although "
                               f"live task {owner} owns the name")
                 elif pend["expect"] in ("nameerror", "raise"):
-                    self.viol("C13.model_mismatch", {"what": pend["expect"]},
-                              f"p{tid} task {label}: step {idx} {pend['step']} was expected to raise but continued")
-        elif what == "n2i":
+                    sig = {"what": pend["expect"]}
+                    if pend.get("overlap"):
+                        sig["other_context_same_spelling"] = True
+                    self.viol("C13.model_mismatch", sig,
+                              f"p{tid} task {label}: step {idx} {pend['step']} was expected to raise but continued"
+                              + (" (nobody owns the name in this global context; a task of the other context owns a "
+                                 "name whose dotted spelling context.name is the same)" if pend.get("overlap") else ""))
+        elif what in ("n2i", "fn2i"):
             self.release_dead()
             got = rec["raw_kw"].get("m") or {}
             got_lab = {n: self.w.label_of(t) for n, t in got.items()}
@@ -491,8 +753,15 @@ class Checker:
             exp = {n: lab for (c, n), lab in self.owner.items() if c == ctx and self.alive(lab)}
             if got_lab != exp:
                 stale = {n: l for n, l in got_lab.items() if l in self.inst and not self.alive(l)}
-                self.viol("C13.name2id", {"pattern": "dead_owner_listed" if stale else "other"},
-                          f"p{tid} task {label} in {ctx}: task.name2id() = {got_lab}, reference owners = {exp}")
+                # names of ANOTHER context in the answer: the same dotted spelling as (ctx, n) is owned over there
+                foreign = sorted(n for n, l in got_lab.items() if exp.get(n) != l and any(
+                    c2 != ctx and qualified(self.spec, c2, n2) == qualified(self.spec, ctx, n) and l2 == l
+                    for (c2, n2), l2 in self.owner.items()))
+                hidden = sorted(n for n in exp if n not in got_lab and self.overlap(ctx, n))
+                pattern = ("dead_owner_listed" if stale else "other_context_name" if foreign or hidden else "other")
+                self.viol("C13.name2id", {"pattern": pattern},
+                          f"p{tid} task {label} in {ctx}: task.name2id() = {got_lab}, reference owners = {exp}"
+                          + (f" - {foreign} belong to the other global context" if foreign else ""))
 
     # -- invariants at quiescent points
     def on_quiescent(self, _loop) -> None:
@@ -504,9 +773,9 @@ class Checker:
                 continue
             rec = self.inst.get(label)
             blockers = {b for b in self.cb_running if b != label and self.alive(b)}
-            own_cb = label in self.cb_running
-            if own_cb:
-                continue  # it is dying: its own done-callback is running
+            # (a request delivered to the task is taken off must_die by the marker of the finally block / done callback
+            # it moved on to; what is left here was NOT delivered - or was made after that - so the task has to be gone
+            # at this quiescent point even if its own done callback is running)
             if blockers:
                 self.w.probe("callback_sleeping_during_kill")
                 if not info.get("reported"):
@@ -517,9 +786,18 @@ class Checker:
                 continue
             if not info.get("reported"):
                 info["reported"] = True
-                self.viol("C13.victim_alive", {"why": info["why"].split(" ")[0]},
+                why = info["why"]
+                sig = {"why": "kill_me=True" if why.startswith("kill_me=True") else "task.cancel"
+                       if why.startswith("task.cancel") else "preamble" if why.endswith("the file preamble") else "claim"}
+                if rec.get("zone", "main") != "main":
+                    sig["zone"] = rec["zone"]        # it sits in its finally block / done callback
+                if rec.get("cancels"):
+                    sig["survived_cancels"] = min(rec["cancels"], 2)
+                self.viol("C13.victim_alive", sig,
                           f"task {label} (p{rec['tid']}) is still alive at a quiescent point {self.w.loop.vt - info['vt']:.3f}s "
-                          f"after it had to die: {info['why']}")
+                          f"after it had to die: {info['why']}"
+                          + (f" (it is in its {'finally block' if rec.get('zone') == 'fin' else 'done callback'} after "
+                             f"{rec.get('cancels', 0)} delivered cancellation(s))" if rec.get("zone", "main") != "main" else ""))
         # killed kill_me callers must not have progressed: checked by 'post'; dead owners must not own names
         from custom_components.pyscript.function import Function
 
@@ -544,6 +822,8 @@ def run(scn: dict) -> dict:
     async def driver(w: World):
         await w.started()
         base = w.loop.vt
+        if spec.get("layout", "flat") == "nested":
+            w.probe("nested_contexts")
         w.loop.on_quiescent = chk.on_quiescent
         last_k = 0
         same_inst: dict = {}
@@ -576,9 +856,13 @@ def run(scn: dict) -> dict:
                     name, kill_me = prog["dec"]
                     owner = chk.live_owner(prog["ctx"], name)
                     here = (prog["tid"], w.loop.iterations)
+                    if chk.overlap(prog["ctx"], name):
+                        w.probe("qualified_name_overlap")
+                        chk.overlap_seen = True
                     fired.append({"tid": prog["tid"], "vt": w.loop.vt, "owner_at_fire": owner, "iter": w.loop.iterations,
                                   "owner_doomed": (owner in chk.must_die or owner in chk.maybe_die)
                                   if owner is not None else False,
+                                  "overlap": bool(chk.overlap(prog["ctx"], name)),
                                   "n_before": sum(1 for r in chk.inst.values() if r["tid"] == prog["tid"])})
                     if kill_me and owner is not None:
                         w.probe("decorator_kill_me_vs_live_owner")
@@ -601,9 +885,9 @@ def run(scn: dict) -> dict:
                 w.probe("preamble_unique")
                 files = render(scn)
                 text = (f"sim.mark('preamble', 'pre')\ntask.unique({op['ctx_name']!r}, kill_me={op['kill_me']})\n"
-                        f"sim.mark('preamble', 'done')\n" + files[f"pyscript/{ctx}.py"])
+                        f"sim.mark('preamble', 'done')\n" + files[ctx_path(spec, ctx)])
                 chk.preamble = {"ctx": ctx, "name": op["ctx_name"], "kill_me": op["kill_me"]}
-                w.write_file(f"pyscript/{ctx}.py", text)
+                w.write_file(ctx_path(spec, ctx), text)
                 task = w.hass.async_create_task(w.reload())
                 outside.append({"task": task, "op": op, "vt": w.loop.vt})
         await w.sleep(base + 0.5 + last_k * GRID + 6.0 - w.loop.vt)
@@ -620,9 +904,14 @@ def run(scn: dict) -> dict:
         for label, pend in sorted(chk.pending_post.items()):
             if pend["expect"] is True and pend["step"][0] == "unique":
                 rec = chk.inst[label]
-                chk.viol("C13.killed_without_live_owner", {"kill_me": pend["step"][2]},
+                sig = {"kill_me": pend["step"][2]}
+                if pend.get("overlap"):
+                    sig["other_context_same_spelling"] = True
+                chk.viol("C13.killed_without_live_owner", sig,
                          f"p{rec['tid']} task {label}: task.unique({pend['step'][1]!r}, kill_me={pend['step'][2]}) never "
-                         f"returned although no other live task owned the name")
+                         f"returned although no other live task owned the name"
+                         + (" in its global context (a task of the other context owned a name whose dotted spelling "
+                            "context.name is the same)" if pend.get("overlap") else ""))
         # ---- a program task nobody asked to die must not end cancelled (a claim in one global context never
         # touches the owner of that name in another one; a kill_me caller never costs the rightful owner its life)
         for label in sorted(chk.inst):
@@ -633,10 +922,16 @@ def run(scn: dict) -> dict:
                 cross = any(c2 != c and n2 == n and vt >= rec["start_vt"]
                             for (c, n), labs in chk.claimants.items() if label in labs
                             for (vt, c2, n2, lab2) in chk.claim_log if lab2 != label)
-                chk.viol("C13.cancelled_unasked", {"pattern": "cross_context" if cross else "other"},
+                spelled = any(c2 != c and qualified(spec, c2, n2) == qualified(spec, c, n) and vt >= rec["start_vt"]
+                              for (c, n), labs in chk.claimants.items() if label in labs
+                              for (vt, c2, n2, lab2) in chk.claim_log + chk.cancel_log if lab2 != label)
+                pattern = "other_context_same_spelling" if spelled else "cross_context" if cross else "other"
+                chk.viol("C13.cancelled_unasked", {"pattern": pattern},
                          f"task {label} (p{rec['tid']}, context {rec['ctx']}, names claimed {held}) was cancelled although "
                          f"no task.unique / task.cancel in its context asked for it"
-                         + (" - the same bare name was claimed in the other global context while it ran" if cross else ""))
+                         + (" - the same bare name was claimed in the other global context while it ran" if cross else "")
+                         + (" - a name with the same dotted spelling context.name was claimed in the other global context "
+                            "while it ran" if spelled else ""))
         # ---- tasks not started by pyscript must never be cancelled
         for rec in outside:
             task = rec["task"]
@@ -681,10 +976,19 @@ def run(scn: dict) -> dict:
                          and rec["vt"] - 1e-9 <= c[0] <= rec["vt"] + window]
                 if kill_me and rival:
                     continue
-                chk.viol("C13.run_wrongly_prevented", {"form": "decorator", "kill_me": kill_me},
-                         f"p{rec['tid']} @task_unique({name!r}, kill_me={kill_me}) did not run although nobody owned the name")
+                sig = {"form": "decorator", "kill_me": kill_me}
+                spelled = [c for c in chk.claim_log if (c[1], c[2]) != (prog["ctx"], name)
+                           and qualified(spec, c[1], c[2]) == qualified(spec, prog["ctx"], name)
+                           and rec["vt"] - 1e-9 <= c[0] <= rec["vt"] + window]
+                if rec.get("overlap") or spelled:
+                    rec["overlap"] = True
+                    sig["other_context_same_spelling"] = True
+                chk.viol("C13.run_wrongly_prevented", sig,
+                         f"p{rec['tid']} @task_unique({name!r}, kill_me={kill_me}) did not run although nobody owned the name"
+                         + (" in its global context" if rec.get("overlap") else ""))
 
     w.run(driver)
+    chk.finish_marks()
     chk.violations.sort(key=lambda v: v.get("t", 0.0))
     extra = {"tasks": len(chk.inst)}
     return base_result(w, chk.violations, chk.contested, extra)
